@@ -5,7 +5,9 @@ import SpecVerif.Proofs.Lemmas.Dpss
   The eigen-solver is a PARAMETER of the model (`raws`, `tapsum` are inputs of `dpssGlue`); its accuracy
   is not provable.  What is proved here is everything the Python glue adds:
     1. shapes;
-    2. the sign convention (given the C routine's contract `tapsum[i] = Σ_n raw_i[n]`);
+    2. the sign convention (given the C routine's contract `tapsum[i] = Σ_n raw_i[n]`): even-index tapers have a
+       non-negative sum, odd-index tapers a non-negative first SIGNIFICANT sample (the first one whose magnitude
+       exceeds 1% of the largest; the very first samples of long wide-band tapers are below the solver's round-off);
     3. the flip and the `1/√N` scaling preserve / produce orthonormality and do not change the ratio;
     4. the recomputed ratio `Σ_d acvs_d · r_d` IS the quadratic form `tᵀ K t` of the sinc concentration
        kernel `K[n,m] = sin(2πW(n-m))/(π(n-m))` (sum by diagonals);
@@ -152,36 +154,99 @@ theorem sign_convention_even {N i : ℕ} (hi : i % 2 = 0) (raw : List ℝ) (ts :
     rw [sum_scaled]
     exact div_nonneg (hpos (not_lt.mp h)) (Real.sqrt_nonneg _)
 
-/-- odd-index taper: the first sample is `|raw[0]| / √N`, in particular non-negative -/
-theorem sign_convention_odd {N i : ℕ} (hN : 0 < N) (hi : i % 2 = 1) (raw : List ℝ) (ts : ℝ) :
-    (dpssTaper N i raw ts).getD 0 0 = |raw.getD 0 0| / Real.sqrt (N : ℝ) ∧
-    0 ≤ (dpssTaper N i raw ts).getD 0 0 := by
+/-- odd-index taper: the first SIGNIFICANT sample of the output (`firstSignificant`: the first sample whose magnitude
+exceeds 1% of the largest magnitude `absMax`; `0` if there is none) is the magnitude of the first significant sample of
+the scaled raw column `raw/√N`, in particular non-negative: read above the noise floor, the taper starts with a
+positive lobe -/
+theorem sign_convention_odd {N i : ℕ} (hi : i % 2 = 1) (raw : List ℝ) (ts : ℝ) :
+    firstSignificant (dpssTaper N i raw ts)
+      = |firstSignificant (vec N (fun n => raw.getD n 0 / Real.sqrt (N : ℝ)))| ∧
+    0 ≤ firstSignificant (dpssTaper N i raw ts) := by
   have hi' : i % 2 ≠ 0 := by omega
-  have hs := sqrt_natCast_pos hN
-  have key : (dpssTaper N i raw ts).getD 0 0 = |raw.getD 0 0| / Real.sqrt (N : ℝ) := by
-    have habs : |raw.getD 0 0| / Real.sqrt (N : ℝ) = |(scaled N raw).getD 0 0| := by
-      rw [getD_scaled raw hN, abs_div, abs_of_pos hs]
-    rw [dpssTaper_odd raw ts hi', habs]
-    split
-    · next h => rw [getD_map_neg, abs_of_neg h]
-    · next h => rw [abs_of_nonneg (not_lt.mp h)]
-  exact ⟨key, key ▸ div_nonneg (abs_nonneg _) hs.le⟩
+  have key := firstSignificant_dpssTaper_odd (N := N) raw ts hi'
+  exact ⟨key, key ▸ abs_nonneg _⟩
+
+/-- odd-index taper, what the previous statement means sample by sample: if the raw column is not identically zero
+there is a position `k < N` holding the first significant sample of the output taper `t`; `t[k]` is POSITIVE and
+exceeds `M/100`, where `M = absMax t` is the largest magnitude of `t` (an upper bound of all `|t[n]|`, attained at some
+`m < N`); and every sample before `k` is negligible, `|t[j]| ≤ M/100` -/
+theorem sign_convention_odd_leading_lobe {N i : ℕ} (hi : i % 2 = 1) (raw : List ℝ) (ts : ℝ)
+    (hraw : ∃ n, n < N ∧ raw.getD n 0 ≠ 0) :
+    ∃ k, k < N ∧
+      (dpssTaper N i raw ts).getD k 0 = firstSignificant (dpssTaper N i raw ts) ∧
+      0 < (dpssTaper N i raw ts).getD k 0 ∧
+      absMax (dpssTaper N i raw ts) / 100 < (dpssTaper N i raw ts).getD k 0 ∧
+      (∀ j, j < k → |(dpssTaper N i raw ts).getD j 0| ≤ absMax (dpssTaper N i raw ts) / 100) ∧
+      (∀ n, |(dpssTaper N i raw ts).getD n 0| ≤ absMax (dpssTaper N i raw ts)) ∧
+      ∃ m, m < N ∧ |(dpssTaper N i raw ts).getD m 0| = absMax (dpssTaper N i raw ts) := by
+  have hi' : i % 2 ≠ 0 := by omega
+  have hlen := dpssTaper_length N i raw ts
+  have hfs := firstSignificant_dpssTaper_odd (N := N) raw ts hi'
+  have hsc : firstSignificant (scaled N raw) ≠ 0 :=
+    (firstSignificant_ne_zero_iff _).mpr (scaled_exists_ne_zero raw hraw)
+  generalize dpssTaper N i raw ts = t at hlen hfs ⊢
+  have hne : firstSignificant t ≠ 0 := by rw [hfs]; exact abs_ne_zero.mpr hsc
+  have hnn : 0 ≤ firstSignificant t := by rw [hfs]; exact abs_nonneg _
+  have hM := absMax_nonneg t
+  obtain ⟨k, hk, hkb, hgt, hbefore⟩ := firstSignificant_spec hne
+  rw [abs_of_nonneg hnn] at hgt
+  refine ⟨k, hlen ▸ hk, hkb, ?_, ?_, hbefore, abs_getD_le_absMax t, ?_⟩
+  · rw [hkb]; exact lt_of_le_of_ne hnn (Ne.symm hne)
+  · rw [hkb]; exact hgt
+  · rcases absMax_attained t with h0 | ⟨w, hw, hwe⟩
+    · exfalso
+      have := abs_le_absMax (firstSignificant_mem hne)
+      rw [abs_of_nonneg hnn] at this
+      rw [h0] at this hgt
+      linarith
+    · obtain ⟨m, hm, hmw⟩ := exists_getD_of_mem hw
+      exact ⟨m, hlen ▸ hm, by rw [hmw, hwe]⟩
+
+/-- the hypothesis is satisfiable, and the new rule differs from "sign of the very first sample": in
+`[10⁻⁹, -1, 1, 0]` the first sample is positive but negligible, the first significant one is `-1` … -/
+example : absMax ([1 / 1000000000, -1, 1, 0] : List ℝ) = 1 ∧
+    firstSignificant ([1 / 1000000000, -1, 1, 0] : List ℝ) = -1 ∧
+    0 < ([1 / 1000000000, -1, 1, 0] : List ℝ).getD 0 0 := by
+  have hM : absMax ([1 / 1000000000, -1, 1, 0] : List ℝ) = 1 := by
+    simp [absMax, RealFn.lt, RealFn.abs]
+    norm_num
+  refine ⟨hM, ?_, by norm_num⟩
+  rw [firstSignificant_eq, hM]
+  norm_num [List.find?_cons]
+
+/-- … so the odd-index taper built from the raw column `[2·10⁻⁹, -2, 2, 0]` (`N = 4`, `√N = 2`) IS flipped, to
+`[-10⁻⁹, 1, -1, 0]`, whereas its first sample is positive -/
+example : dpssTaper 4 1 ([2 / 1000000000, -2, 2, 0] : List ℝ) 0 = [-(1 / 1000000000), 1, -1, 0] := by
+  have h4 : Real.sqrt ((4 : ℕ) : ℝ) = 2 := by
+    rw [show ((4 : ℕ) : ℝ) = 2 ^ 2 by norm_num]; exact Real.sqrt_sq (by norm_num)
+  have hsc : scaled 4 ([2 / 1000000000, -2, 2, 0] : List ℝ) = [1 / 1000000000, -1, 1, 0] := by
+    simp only [scaled, h4, vec, List.range_succ, List.range_zero]
+    norm_num
+  have hM : absMax ([1 / 1000000000, -1, 1, 0] : List ℝ) = 1 := by
+    simp [absMax, RealFn.lt, RealFn.abs]
+    norm_num
+  have hfs : firstSignificant ([1 / 1000000000, -1, 1, 0] : List ℝ) = -1 := by
+    rw [firstSignificant_eq, hM]
+    norm_num [List.find?_cons]
+  rw [dpssTaper_odd _ _ (by norm_num), hsc, hfs]
+  norm_num
 
 /-- the sign convention on the output of `dpss`: given the C routine's contract
 `tapsum[i] = Σ_n raw_i[n]`, even-index tapers have a non-negative sum and odd-index tapers a
-non-negative first sample -/
-theorem sign_convention {N : ℕ} (hN : 0 < N) (NW : ℝ) (raws : List (List ℝ)) (tapsum : List ℝ) {i : ℕ}
+non-negative first significant sample (the first sample above 1% of the largest magnitude; by
+`sign_convention_odd_leading_lobe` it is positive and preceded only by negligible samples when the column is not zero) -/
+theorem sign_convention {N : ℕ} (NW : ℝ) (raws : List (List ℝ)) (tapsum : List ℝ) {i : ℕ}
     (hi : i < raws.length)
     (hts : tapsum.getD i 0 = ∑ n ∈ range N, (raws.getD i []).getD n 0) :
     (i % 2 = 0 → 0 ≤ ∑ n ∈ range N, ((dpssGlue N NW raws tapsum).1.getD i []).getD n 0) ∧
-    (i % 2 = 1 → 0 ≤ ((dpssGlue N NW raws tapsum).1.getD i []).getD 0 0) := by
+    (i % 2 = 1 → 0 ≤ firstSignificant ((dpssGlue N NW raws tapsum).1.getD i [])) := by
   rw [glue_taper_getD N NW raws tapsum hi]
   constructor
   · intro he
     rw [sign_convention_even_sum he _ _ hts]
     exact div_nonneg (abs_nonneg _) (Real.sqrt_nonneg _)
   · intro ho
-    exact (sign_convention_odd hN ho _ _).2
+    exact (sign_convention_odd ho _ _).2
 
 /-! ### 4. the reported ratio is the Rayleigh quotient of the sinc concentration kernel -/
 
